@@ -23,14 +23,8 @@ def orderRefs (ax : Bool) (r1 r2 : ZPt) : ZPt × ZPt :=
   if co ax r1.orus > co ax r2.orus then (r2, r1) else (r1, r2)
 
 /-- `iup_interpolate`: the new coordinate of one point of the range (`a` = its original scaled
-coordinate, `u` = its unscaled coordinate) between the ORDERED references `r1 r2`. -/
-def interpCoord (ax : Bool) (r1 r2 : ZPt) (a u : Int) : Option Int :=
-  let orus1 := co ax r1.orus
-  let orus2 := co ax r2.orus
-  let org1 := co ax r1.org
-  let org2 := co ax r2.org
-  let cur1 := co ax r1.cur
-  let cur2 := co ax r2.cur
+coordinate, `u` = its unscaled coordinate) from the six coordinates of the ORDERED references. -/
+def interpCore (orus1 orus2 org1 org2 cur1 cur2 a u : Int) : Option Int :=
   let delta1 := wsub cur1 org1
   let delta2 := wsub cur2 org2
   if cur1 = cur2 ∨ orus1 = orus2 then
@@ -42,6 +36,9 @@ def interpCoord (ax : Bool) (r1 r2 : ZPt) (a u : Int) : Option Int :=
     if a ≤ org1 then some (wadd a delta1)
     else if a ≥ org2 then some (wadd a delta2)
     else (chk (u - orus1)).map fun du => wadd cur1 (mul du scale)
+
+def interpCoord (ax : Bool) (r1 r2 : ZPt) (a u : Int) : Option Int :=
+  interpCore (co ax r1.orus) (co ax r2.orus) (co ax r1.org) (co ax r2.org) (co ax r1.cur) (co ax r2.cur) a u
 
 /-- apply `f` to the points `p1 ..= p2` of a zone (index order), `none` if `f` traps. -/
 def mapRange (pts : List ZPt) (p1 p2 : Nat) (f : ZPt → Option ZPt) : Option (List ZPt) :=
